@@ -3,6 +3,7 @@ package c03
 
 import (
 	"fmt"
+	"github.com/tonkeeper/tongo/wallet"
 	"math/big"
 	"path/filepath"
 	"reflect"
@@ -247,6 +248,82 @@ func harnesses(r *fw.Run) []fw.HarnessSpec {
 			out := tlbx.RoundTrip(c, "tlb.Transaction", reflect.ValueOf(&tx2).Elem(), true)
 			c.Outcome(out)
 		})
+	})
+
+	// hand-written list codecs: every list of 1..3 wallet-v5 extended actions over five actions (the same constructor
+	// twice with different operands included)
+	add("w5-extended-action-lists", 0, func(c *enum.Ctx) {
+		mkAddr := func(k byte) tlb.MsgAddress {
+			var a tlb.MsgAddress
+			a.SumType = "AddrStd"
+			a.AddrStd.WorkchainId = int8(k) - 1
+			for i := range a.AddrStd.Address {
+				a.AddrStd.Address[i] = k*16 + byte(i)
+			}
+			return a
+		}
+		mk := func(k int) wallet.W5ExtendedAction {
+			var x wallet.W5ExtendedAction
+			switch k {
+			case 0, 1:
+				x.SumType = "AddExtension"
+				x.AddExtension = &struct{ Addr tlb.MsgAddress }{mkAddr(byte(k + 1))}
+			case 2:
+				x.SumType = "RemoveExtension"
+				x.RemoveExtension = &struct{ Addr tlb.MsgAddress }{mkAddr(1)}
+			case 3, 4:
+				x.SumType = "SetSignatureAllowed"
+				x.SetSignatureAllowed = &struct{ Allowed bool }{k == 3}
+			}
+			return x
+		}
+		n := 1 + c.ChooseFree(3)
+		var list wallet.W5ExtendedActions
+		desc := ""
+		for i := 0; i < n; i++ {
+			k := c.ChooseFree(5)
+			list = append(list, mk(k))
+			desc += fmt.Sprint(k)
+		}
+		c.Case([]byte("w5ext/"+desc), true)
+		c.Label("extended actions %s", desc)
+		c.Outcome(tlbx.RoundTrip(c, "wallet.W5ExtendedActions", reflect.ValueOf(&list).Elem(), true))
+	})
+
+	// cell-typed fields behind ^ keep whatever cell is referenced, library cells included, with every decoder
+	// (plain, caching, with a library resolver)
+	add("library-cells-in-cell-fields", 0, func(c *enum.Ctx) {
+		raw := []byte{0xb5, 0xee, 0x9c, 0x72, 0x01, 0x01, 0x01, 0x01, 0x00, 35, 0x00, 0x08, 66, 0x02}
+		for i := 0; i < 32; i++ {
+			raw = append(raw, byte(seed+i*7+1))
+		}
+		roots, err := tb.DeserializeBoc(raw)
+		if err != nil || len(roots) != 1 {
+			c.Fail("setup", "library cell: %v", err)
+			return
+		}
+		lib := roots[0]
+		k := c.ChooseFree(3)
+		c.Case([]byte(fmt.Sprintf("libcell/%d", k)), true)
+		switch k {
+		case 0:
+			v := tlb.SimpleLib{Public: true, Root: *lib}
+			c.Outcome(tlbx.RoundTrip(c, "tlb.SimpleLib", reflect.ValueOf(&v).Elem(), true))
+		case 1:
+			var st tlb.StateInit
+			st.Library.Put(tlb.Bits256{1, 2, 3}, tlb.SimpleLib{Public: false, Root: *lib})
+			c.Outcome(tlbx.RoundTrip(c, "tlb.StateInit", reflect.ValueOf(&st).Elem(), true))
+		case 2:
+			type holder struct {
+				A uint8
+				C tb.Cell `tlb:"^"`
+				D tb.Cell `tlb:"^"`
+			}
+			ord := tb.NewCell()
+			_ = ord.WriteUint(7, 3)
+			v := holder{A: 9, C: *lib, D: *ord}
+			c.Outcome(tlbx.RoundTrip(c, "struct{^Cell}", reflect.ValueOf(&v).Elem(), true))
+		}
 	})
 
 	// explicit constructive families for hand-written codecs (strict)
